@@ -65,6 +65,7 @@ def summarize(results):
         agg["paths_ref"] += r.get("paths_ref", 0); agg["paths_lua"] += r.get("paths_lua", 0); agg["cut_paths"] += r.get("cut", 0)
         st = r.get("stats", {})
         for k in ("queries", "sat", "unsat", "unknown"): agg[k] += st.get(k, 0)
+        if r.get("case_split"): agg["case_split_templates"] = agg.get("case_split_templates", 0) + 1; agg["case_split_valuations"] = agg.get("case_split_valuations", 0) + r["case_split"]
         agg["solver_s"] = round(agg["solver_s"] + st.get("solver_s", 0.0), 3)
     return agg
 
